@@ -634,6 +634,114 @@ theorem rankExec_stable (counts : Option (List (Str × Nat))) (l : List Scored) 
         ((rankExec_isRanking counts xs).1.mem_iff).2 (List.singleton_sublist.1 h)
       exact insertRanked_before counts a b _ hb hnl
 
+theorem pair_sublist_antisymm {α : Type} (l : List α) (a b : α) (hnd : l.Nodup)
+    (h1 : [a, b].Sublist l) (h2 : [b, a].Sublist l) : False := by
+  induction l with
+  | nil => cases h1
+  | cons x xs ih =>
+    have hx := (List.nodup_cons.1 hnd)
+    cases h1 with
+    | cons _ h1' =>
+      cases h2 with
+      | cons _ h2' => exact ih hx.2 h1' h2'
+      | cons_cons _ h2' =>
+        -- b = x, [a] <+ xs, and [a,b] <+ xs → b ∈ xs
+        exact hx.1 (h1'.subset (by simp))
+    | cons_cons _ h1' =>
+      cases h2 with
+      | cons _ h2' => exact hx.1 (h2'.subset (by simp))
+      | cons_cons _ h2' =>
+        exact hx.1 (List.singleton_sublist.1 h1')
+
+theorem pair_sublist_total {α : Type} (l : List α) (a b : α) (ha : a ∈ l) (hb : b ∈ l) (hab : a ≠ b) :
+    [a, b].Sublist l ∨ [b, a].Sublist l := by
+  induction l with
+  | nil => cases ha
+  | cons x xs ih =>
+    rcases List.mem_cons.1 ha with rfl | ha'
+    · rcases List.mem_cons.1 hb with h | hb'
+      · exact absurd h.symm hab
+      · exact Or.inl ((List.singleton_sublist.2 hb').cons_cons _)
+    · rcases List.mem_cons.1 hb with rfl | hb'
+      · exact Or.inr ((List.singleton_sublist.2 ha').cons_cons _)
+      · rcases ih ha' hb' with h | h
+        · exact Or.inl (h.cons _)
+        · exact Or.inr (h.cons _)
+
+/-- A stable sort is a function: the sorted permutation that keeps the input order of elements
+    neither of which must precede the other is unique (for distinct candidates). -/
+theorem stable_ranking_unique (counts : Option (List (Str × Nat))) (scored r : List Scored)
+    (hnd : scored.Nodup) (hr : IsRanking counts scored r)
+    (hst : ∀ a b, [a, b].Sublist scored → less counts b a = false → [a, b].Sublist r) :
+    r = rankExec counts scored := by
+  have hR := rankExec_isRanking counts scored
+  have hRst := rankExec_stable counts scored
+  have hndr : r.Nodup := hr.1.nodup_iff.2 hnd
+  have hndR : (rankExec counts scored).Nodup := hR.1.nodup_iff.2 hnd
+  have hsorted_r : ∀ a b, [a, b].Sublist r → less counts b a = false :=
+    fun a b h => List.pairwise_iff_forall_sublist.1 hr.2 h
+  have hsorted_R : ∀ a b, [a, b].Sublist (rankExec counts scored) → less counts b a = false :=
+    fun a b h => List.pairwise_iff_forall_sublist.1 hR.2 h
+  let le : Scored → Scored → Prop := fun a b => [a, b].Sublist (rankExec counts scored)
+  refine List.Perm.eq_of_pairwise (le := le) ?_ ?_ ?_ (hr.1.trans hR.1.symm)
+  · intro a b _ _ hab hba
+    exact (pair_sublist_antisymm _ a b hndR hab hba).elim
+  · rw [List.pairwise_iff_forall_sublist]
+    intro a b hab
+    have ha : a ∈ scored := hr.1.mem_iff.1 (hab.subset (by simp))
+    have hb : b ∈ scored := hr.1.mem_iff.1 (hab.subset (by simp))
+    have hne : a ≠ b := by
+      rintro rfl
+      have : a ≠ a := List.pairwise_iff_forall_sublist.1 hndr hab
+      exact this rfl
+    rcases pair_sublist_total scored a b ha hb hne with h | h
+    · cases hl : less counts b a
+      · exact hRst a b h hl
+      · have := hsorted_r a b hab
+        rw [hl] at this; cases this
+    · cases hl : less counts a b
+      · exact (pair_sublist_antisymm r a b hndr hab (hst b a h hl)).elim
+      · rcases pair_sublist_total _ a b (hR.1.mem_iff.2 ha) (hR.1.mem_iff.2 hb) hne with h' | h'
+        · exact h'
+        · have := hsorted_R b a h'
+          rw [hl] at this; cases this
+  · rw [List.pairwise_iff_forall_sublist]
+    intro a b hab
+    exact hab
+/-! ### Helpers of the fragment theorems -/
+
+/-- `skipCode` leaves a text alone that does not start with a parenthesis. -/
+theorem skipCode_id (s : Str) (h : ∀ c ∈ s.head?, c ≠ '(') : skipCode s = s := by
+  unfold skipCode
+  split
+  · exact absurd rfl (h '(' (by simp))
+  · rfl
+
+theorem dropWhile_append_frag (p : Char → Bool) (pre frag : Str) (hpre : ∀ c ∈ pre, p c = true)
+    (hf : ∀ c ∈ frag.head?, p c = false) : (pre ++ frag).dropWhile p = frag := by
+  rw [List.dropWhile_append_of_pos hpre]
+  cases frag with
+  | nil => rfl
+  | cons f fs =>
+    have := hf f (by simp)
+    simp [this]
+
+theorem take_pre_frag (p frag rest : Str) :
+    (p ++ frag ++ rest).take (p.length + frag.length) = p ++ frag := by
+  rw [← List.length_append]; exact List.take_left' rfl
+
+theorem length_sub_frag (p frag : Str) : (p ++ frag).length - frag.length = p.length := by
+  rw [List.length_append]; omega
+
+theorem not_comma_of_blanks_frag (blanks frag : Str) (hbl : ∀ c ∈ blanks, isBlankTab c = true) (hc : ',' ∉ frag) :
+    ∀ x ∈ blanks ++ frag, (x == ',') = false := by
+  intro x hx
+  rcases List.mem_append.1 hx with hx | hx
+  · have := hbl x hx
+    simp only [isBlankTab, Bool.or_eq_true, beq_iff_eq] at this
+    rcases this with rfl | rfl <;> rfl
+  · simp only [beq_eq_false_iff_ne, ne_eq]; rintro rfl; exact hc hx
+
 /-! ### Further helpers of HL.Props.C16 -/
 
 theorem normMax_id (n : Nat) (h : 1 ≤ n) : normMax (n : Int) = n := by
